@@ -126,7 +126,10 @@ class GGen:
             return ["rep1", self.simple_atom(i, depth + 1)]
         if c < 0.75:
             self.feats.add("gather")
-            return ["gather", self.r.choice([L(","), L("c")]), self.simple_atom(i, depth + 1)]
+            sep = self.r.choice([L(","), L("c"), L(","), ["tok", "NUMBER"], ["tok", "NAME"], ["lit", '"s"'], ["grp", [[[[None, L(",")]], None], [[[None, L("c")]], None]]]])
+            if sep[0] != "lit":
+                self.feats.add("gather-with-non-literal-separator")
+            return ["gather", sep, self.simple_atom(i, depth + 1)]
         if c < 0.9:
             self.feats.add("group")
             return self.group(i, depth)
